@@ -19,6 +19,25 @@ let z_of_int (n : int) : z =
 let int_of_z (x : z) : int =
   match x with Z0 -> 0 | Zpos p -> int_of_pos p | Zneg p -> - (int_of_pos p)
 
+(* decimal strings of any size (offsets near 2^63 do not fit OCaml's 63-bit int) *)
+let z_of_dec (s : string) : z =
+  let neg = String.length s > 0 && s.[0] = '-' in
+  let ds = if neg then String.sub s 1 (String.length s - 1) else s in
+  if String.length ds < 18 then z_of_int (int_of_string s) else begin
+    let d = Array.init (String.length ds) (fun i -> Char.code ds.[i] - 48) in
+    let is_zero () = Array.for_all (fun x -> x = 0) d in
+    let div2 () =
+      let r = ref 0 in
+      Array.iteri (fun i x -> let v = !r * 10 + x in d.(i) <- v / 2; r := v mod 2) d; !r in
+    let rec bits acc = if is_zero () then acc else (let b = div2 () in bits (b :: acc)) in
+    (* bits: most significant first *)
+    match bits [] with
+    | [] -> Z0
+    | _ :: rest ->
+      let p = List.fold_left (fun p b -> if b = 1 then XI p else XO p) XH rest in
+      if neg then Zneg p else Zpos p
+  end
+
 (* bytes are written as lowercase hex, the empty string as "-" *)
 let bytes_of_hex (s : string) : n list =
   if s = "-" then [] else begin
